@@ -233,9 +233,13 @@ class P:
                             ip = "127.0.0.%d" % rng.randrange(2, 250)
                             while True:
                                 # (several fields: the one-field re-announcements of a later shrink cycle then really make the saved file shorter)
-                                t, o = g.rand_tpl(tid=rng.choice([256, 257, 300, 999]), allow_var=False, nfields=rng.choice([6, 10, 25]))
+                                # (IPFIX: every other template has variable-length fields: whatever a decoder derives from a template when it
+                                # is announced must also be there when the template comes back from the file)
+                                t, o = g.rand_tpl(tid=rng.choice([256, 257, 300, 999]), allow_var=(proto == "ipfix" and k % 2 == 0), nfields=rng.choice([6, 10, 25]))
                                 if g.min_rec_len(t) > 4:
                                     break
+                            if proto == "ipfix" and k % 2 == 0 and all(ln != 65535 for _, _, ln in t.specs()):
+                                t.fields.append((82, 0, 65535))       # interfaceName, variable length
                             dmsg, pub = announce(proto, ip, t, o)
                             if pub is None:
                                 viol.append({"cases": [], "verdict": "cycle %d: data sent after its template was never published (%s from %s)" % (cyc, proto, ip)}); break
